@@ -444,8 +444,30 @@ def run(ctx):
                   ("py-strings-into-ints" + sfx, "[]int", simple, b'a3{s3"128"s1"7"u9}' + filler),
                   ("py-bytes-into-string" + sfx, "string", simple, b'b5"hello"' + filler),
                   ("py-string-into-bytes" + sfx, "bytes", simple, b's5"hello"' + filler)]
+    # fixed-size byte destinations ([N]byte, uuid) take the unsafe-window paths; decoder/Formatter options
+    # (LongType, RealType, MapType) must act the same for a reader and for a slice
+    u16 = bytes(range(0x41, 0x51))
+    for simple in (True, False):
+        sfx = "" if simple else "-ref"
+        extra += [("py-uuid-from-bytes" + sfx, "uuid", simple, b'b16"' + u16 + b'"' + filler),
+                  ("py-uuids-from-bytes" + sfx, "[]uuid", simple, b'a2{b16"' + u16 + b'"b16"' + u16[::-1] + b'"}'),
+                  ("py-arr16-from-bytes" + sfx, "[16]byte", simple, b'b16"' + u16 + b'"' + filler),
+                  ("py-arr16s-from-bytes" + sfx, "[][16]byte", simple, b'a2{b16"' + u16 + b'"b16"' + u16[::-1] + b'"}'),
+                  ("py-arr4-from-string" + sfx, "[4]byte", simple, b's4"wxyz"' + filler),
+                  ("py-uuid-from-guid" + sfx, "uuid", simple, b"g{01234567-89ab-cdef-0123-456789abcdef}" + filler),
+                  ("py-uuid-from-string" + sfx, "uuid", simple, b's36"01234567-89ab-cdef-0123-456789abcdef"' + filler),
+                  ("py-bigfloat" + sfx, "bigfloat", simple, b"d1.25e10;" + filler), ("py-bigrat" + sfx, "bigrat", simple, b's4"22/7"' + filler)]
     for name, typ, simple, b in extra:
         samples.append({"name": name, "type": typ, "simple": simple, "hex": b.hex()})
+    optsamples = [("opt-long", "iface", b"l12345678901234567890;"), ("opt-long-list", "[]iface", b"a2{l5;l-7;}"), ("opt-double", "iface", b"d1.5;"),
+                  ("opt-map", "iface", b'm1{s1"k"i5;}'), ("opt-nested", "[]iface", b'a3{l9;d2.5;m1{1l7;}}')]
+    for name, typ, b in optsamples:
+        for lt in (0, 1, 2, 3, 4, 5, 6):
+            for rt, mt in ((0, 0), (1, 1), (2, 0)):
+                if lt == 0 and rt == 0 and mt == 0:
+                    continue
+                samples.append({"name": "%s-lt%d-rt%d-mt%d" % (name, lt, rt, mt), "type": typ, "simple": True, "hex": b.hex(),
+                                "lt": lt, "rt": rt, "mt": mt})
     dcases, dmeta = [], {}
     did = 0
     for s in samples:
@@ -457,8 +479,20 @@ def run(ctx):
             data = full[:cut]
             did += 1
             base = did
-            dcases.append({"id": did, "kind": "decode", "mode": "B", "data": data.hex(), "type": s["type"], "simple": s["simple"]})
-            dmeta[did] = {"s": s["name"], "base": base, "data": data, "mode": "B", "valid": cut == n}
+            opts = {k: s[k] for k in ("lt", "rt", "mt") if k in s}
+            dcases.append(dict({"id": did, "kind": "decode", "mode": "B", "data": data.hex(), "type": s["type"], "simple": s["simple"]}, **opts))
+            if opts:
+                # the Formatter pair: Unmarshal (contiguous) against UnmarshalFromReader
+                did += 1
+                fbase = did
+                dcases.append(dict({"id": did, "kind": "decode", "mode": "B", "usefmt": True, "data": data.hex(), "type": s["type"], "simple": s["simple"]}, **opts))
+                dmeta[did] = {"s": s["name"] + ":fmt", "base": fbase, "data": data, "mode": "B", "valid": cut == n}
+                did += 1
+                dcases.append(dict({"id": did, "kind": "decode", "mode": "R", "ctor": "fmt", "cap": 256, "data": data.hex(), "lens": [max(1, cut // 2)],
+                                    "eof_last": False, "type": s["type"], "simple": s["simple"]}, **opts))
+                dmeta[did] = {"s": s["name"] + ":fmt", "base": fbase, "data": data, "mode": "R", "lens": [max(1, cut // 2)], "cap": 256, "ctor": "fmt",
+                              "pat": "half", "valid": cut == n}
+            dmeta[base] = {"s": s["name"], "base": base, "data": data, "mode": "B", "valid": cut == n}
             pats = chunkings(rng, cut, short and (quick is False or cut <= 22), 5, 3, 2 if quick else 6)
             for kind, lens in pats:
                 r = rng.random()
@@ -469,8 +503,8 @@ def run(ctx):
                 else:
                     ctor, cap = "fmt", 256
                 did += 1
-                dcases.append({"id": did, "kind": "decode", "mode": "R", "ctor": ctor, "cap": cap, "data": data.hex(),
-                               "lens": lens, "eof_last": rng.random() < 0.25, "type": s["type"], "simple": s["simple"]})
+                dcases.append(dict({"id": did, "kind": "decode", "mode": "R", "ctor": ctor, "cap": cap, "data": data.hex(),
+                                    "lens": lens, "eof_last": rng.random() < 0.25, "type": s["type"], "simple": s["simple"]}, **opts))
                 dmeta[did] = {"s": s["name"], "base": base, "data": data, "mode": "R", "lens": lens,
                               "cap": real_cap(ctor, cap), "ctor": ctor, "pat": kind, "valid": cut == n}
     rc, dobs, err = hv.run_harness("c05", dcases)
